@@ -354,9 +354,25 @@ func runC06(p *core.Program, r *core.Report) {
 				if !ok || s.Init != nil {
 					continue
 				}
-				// clamp: if v < 0 { v = 0 }
-				if id, ok := eng.Unparen(b.X).(*ast.Ident); ok && b.Op == token.LSS && s.Else == nil && len(s.Body.List) == 1 {
-					if tv, ok := info.Types[b.Y]; ok && tv.Value != nil && tv.Value.ExactString() == "0" {
+				// clamp: if v < 0 { v = 0 } — also written 0 > v, v <= -1, v < 1, v <= 0
+				isVar := func(x ast.Expr) bool {
+					id, ok := x.(*ast.Ident)
+					if !ok {
+						return false
+					}
+					_, isV := info.Uses[id].(*types.Var)
+					return isV
+				}
+				if subj, other, op, ok := eng.CmpOn(s.Cond, isVar); ok && s.Else == nil && len(s.Body.List) == 1 {
+					id := subj.(*ast.Ident)
+					clampTest := false
+					if tv, ok := info.Types[other]; ok && tv.Value != nil {
+						switch c := tv.Value.ExactString(); {
+						case op == token.LSS && (c == "0" || c == "1"), op == token.LEQ && (c == "-1" || c == "0"):
+							clampTest = true
+						}
+					}
+					if clampTest {
 						if as, ok := s.Body.List[0].(*ast.AssignStmt); ok && len(as.Lhs) == 1 && len(as.Rhs) == 1 && as.Tok == token.ASSIGN {
 							if lid, ok := as.Lhs[0].(*ast.Ident); ok && info.Uses[lid] == info.Uses[id] {
 								if tv, ok := info.Types[as.Rhs[0]]; ok && tv.Value != nil && tv.Value.ExactString() == "0" {
